@@ -63,6 +63,10 @@ def msub {m n : Nat} (A B : Mat α m n) : Mat α m n := fun i j => A i j - B i j
 def madd {m n : Nat} (A B : Mat α m n) : Mat α m n := fun i j => A i j + B i j
 def smul {m n : Nat} (c : α) (A : Mat α m n) : Mat α m n := fun i j => c * A i j
 
+/-- `A.dot(v)` for a vector `v` -/
+def mulVec {m n : Nat} (A : Mat α m n) (v : Fin n → α) : Fin m → α :=
+  fun i => sumFin n (fun l => A i l * v l)
+
 /-- `np.diag(d)` -/
 def diagM {n : Nat} (d : Fin n → α) : Mat α n n := fun i j => if i = j then d i else 0
 
